@@ -193,6 +193,10 @@ def run(model: RepoModel, rep, tier: str):
     rep.rule("C14.R6", "a sort that fixes the order of a set of value-hashed objects tells its members apart: the key reads every field the "
                        "class hashes on (except fields that are constant within one such set)", 1)
     _r6_sort_keys_discriminate(model, rep)
+    from .. import generic5
+    rep.rule("C14.R7", "the spelling of the workspace path changes nothing: a table whose keys are stored through os.path.realpath is looked up "
+                       "through os.path.realpath (or with its own keys)", 1)
+    generic5.check_key_normalisation(model, rep, "C14.R7")
     rep.rule("C14.R3", "no clock, pid, random or object identity value reaches an identifier or a stored result", min_instances=2)
 
     # ------------------------------------------------------------------ R1
@@ -807,6 +811,12 @@ def _t(old, new):
 
 
 MUTANTS = [
+    ("original-path-looked-up-as-typed", "preparation.py",
+     lambda src: _t("self.dst_file_to_src_file.get(os.path.realpath(entry.path), \"\")", "self.dst_file_to_src_file.get(entry.path, \"\")")(src),
+     "C14.R7"),
+    ("argument-sort-key-without-space-index", "core/stmt_states.py",
+     lambda src: _t("key = lambda arg: (arg.index_in_space, arg.state_id)", "key = lambda arg: (arg.position, arg.state_id)")(src),
+     "C14.R6"),
     ("mock-code-recognised-by-substring", "lang/lang_analysis.py",
      lambda src: _t("            if os.path.realpath(file_path).startswith(externs_root + os.sep):", "            if f\"{os.sep}{config.EXTERNS_DIR}{os.sep}\" in file_path:")(src),
      "GIRParser.parse::`"),
